@@ -62,23 +62,19 @@ func (q *IndexNotificationQueue) Run() {
 			return
 		case <-gc.C:
 			iter.Consume(q.items.Values(), func(h *heap.Heap[*item]) {
-				l := h.Len()
-				for i := 0; i < l; i++ {
+				// Walk from the end and look again at a position that Remove refilled: elements that
+				// were not visited yet only ever move to positions at or below the current one.
+				for i := h.Len() - 1; i >= 0; {
 					elem := h.Slice[i]
-					if elem.ctx.Err() != nil {
-						// Reorder
-						elem.revision = 0
-						elem.waitCh <- elem.ctx.Err()
+					if err := elem.ctx.Err(); err != nil {
+						elem.waitCh <- err
+						h.Remove(i)
+						if i >= h.Len() {
+							i--
+						}
+						continue
 					}
-				}
-				h.Fix(0)
-				for i := 0; i < l; i++ {
-					elem := h.Peek()
-					if elem.revision == 0 {
-						h.Pop()
-					} else {
-						break
-					}
+					i--
 				}
 			})
 		case it := <-q.add:
